@@ -667,6 +667,21 @@ func runMARSHAL(c *Ctx, r *Result, rule string) {
 				o.Verdict, o.Reason = Discharged, "MarshalJSON resolves to "+shortFn(sf)+", which returns the constant `\"\"`"
 			}
 			r.Add(o)
+			// jtypes.Resolve dereferences pointers, and built-ins keep the resolved value in
+			// their results ($reduce, $distinct): the struct itself has to be a json.Marshaler
+			// too, which needs a value receiver (encoding/json cannot take the address of a
+			// value held in an interface and falls back to the struct encoder: "{}")
+			if _, isPtr := X.(*types.Pointer); isPtr {
+				if _, isStruct := T.Underlying().(*types.Struct); isStruct {
+					ov := Obligation{Rule: rule, Key: "callable-marshal-value:" + types.TypeString(T, types.RelativeTo(jp)), Fn: types.TypeString(T, nil), Pos: c.W.Pos(T.(*types.Named).Obj().Pos()), Nontrivial: true}
+					if types.NewMethodSet(T).Lookup(jp, "MarshalJSON") != nil || types.NewMethodSet(T).Lookup(nil, "MarshalJSON") != nil {
+						ov.Verdict, ov.Reason = Discharged, "MarshalJSON is in the method set of the struct type itself: a dereferenced callable (jtypes.Resolve) still marshals as \"\""
+					} else {
+						ov.Verdict, ov.Reason = Finding, "MarshalJSON has a pointer receiver only: a callable that jtypes.Resolve dereferenced (the accumulator of $reduce, the items of $distinct) is encoded by the struct encoder as {} instead of \"\""
+					}
+					r.Add(ov)
+				}
+			}
 			break
 		}
 	}
